@@ -896,6 +896,40 @@ func runC10(p *core.Prog, r *core.Report, tier string) {
 				}
 			}
 		})
+		// the dispatch as a table: a lookup by the document's version in a package-level map filled with constant keys
+		core.EachInstr(f, func(in ssa.Instruction) {
+			lk, ok := in.(*ssa.Lookup)
+			if !ok || !ds.D(lk.Index).HasFieldSuffix("Version") {
+				return
+			}
+			ld, ok := lk.X.(*ssa.UnOp)
+			if !ok {
+				return
+			}
+			g, ok := ld.X.(*ssa.Global)
+			if !ok || g.Pkg == nil {
+				return
+			}
+			if initFn := g.Pkg.Func("init"); initFn != nil {
+				core.EachInstr(initFn, func(x ssa.Instruction) {
+					mu, ok := x.(*ssa.MapUpdate)
+					if !ok {
+						return
+					}
+					filled := false
+					if mu.Map.Referrers() != nil {
+						for _, ref := range *mu.Map.Referrers() {
+							if st, ok := ref.(*ssa.Store); ok && st.Addr == ssa.Value(g) {
+								filled = true
+							}
+						}
+					}
+					if c, ok := mu.Key.(*ssa.Const); ok && filled && c.Value != nil {
+						arms[c.Value.ExactString()] = true
+					}
+				})
+			}
+		})
 		r.Check(arms["0"] && arms["2"], "C10.g", "blockrelay.UnmarshalJSON|arms", p.Pos(f.Pos()), fmt.Sprintf("version arms %v", keysOf(arms)), fmt.Sprintf("the version dispatch has arms %v, expected the unversioned (0) and version 2 documents", keysOf(arms)))
 		// success returns carry the configurator of the matching version; a nil error never comes with a nil configurator
 		for i, ret := range core.ReturnsOf(f) {
